@@ -8,8 +8,13 @@
        c, \c  RSet false [(c,c)]        ( ) and (?: )  are transparent (no capture is observable).
    [matches icase r s] is the usual denotational semantics (the language of r contains s); it is the
    semantics of I-Regexp (RFC 9485) on this dialect, which has no anchors, back-references or
-   look-around.  [icase] is re.IGNORECASE restricted to the ASCII letters (the model refuses
-   non-ASCII patterns under that flag). *)
+   look-around.  [icase] is re.IGNORECASE restricted to the ASCII letters (under that flag the model
+   answers only when the pattern and the subject string are ASCII: Python also folds U+212A, U+017F,
+   U+0130, U+0131 onto ASCII letters).
+
+   "." : without DOTALL it excludes "\n" only, so it matches "\r".  That is Python's behaviour and the
+   code's; I-Regexp's "." is [^\n\r], so "." against a carriage return is outside the dialect on which
+   the two agree.  The model follows the code. *)
 From Coq Require Import NArith List Bool.
 From JP Require Import Base PyStr Regex.
 Import ListNotations.
